@@ -173,7 +173,7 @@ Section TwoLogs.
       + intros [_ [G [O _]]]. split; [now apply oget_In|now apply ohas_false].
       + intros [Hin Hnl]. split.
         * apply (missing_reachable (S (Z.to_nat (l_time o - e_time v))) k v); auto. lia.
-        * repeat split; [apply In_oget; auto; apply (li_nodup _ _ Io)|now apply ohas_false|].
+        * repeat split; [apply In_oget; auto; apply (li_nodup _ _ Io)|now apply ohas_false| |now apply (li_in_U _ _ Io) in Hin].
           rewrite SameId. apply (li_logid _ _ Io). apply ents_In. eauto.
   Qed.
 End TwoLogs.
